@@ -219,8 +219,14 @@ pub fn gen_install(r: &mut Rng, tier: Tier, max_entries: usize) -> InstallSpec {
         repos.push(RepoSpec { exp: *exp, version_file: r.chance(2, 3), packs });
     }
     let mut strays = vec![];
+    let installed: Vec<u8> = repos.iter().map(|x: &RepoSpec| x.exp).filter(|e| *e != 0).collect();
     for _ in 0..r.below(4) {
-        strays.push(match r.below(5) {
+        strays.push(match r.below(7) {
+            // a left-over copy next to an installed expansion ("ex1.bak" beside "ex1"): physis
+            // names a repository after the directory's stem, so the list of repositories names
+            // that expansion twice; every file is still opened under sqpack/<name>/
+            5 if !installed.is_empty() => Stray { path: format!("sqpack/ex{}.{}", r.pick(&installed), r.pick(&["bak", "old", "0"])), is_dir: true },
+            6 => Stray { path: "sqpack/ffxiv.bak".into(), is_dir: true },
             0 => Stray { path: "sqpack/movie".into(), is_dir: true },
             1 => Stray { path: "sqpack/readme.txt".into(), is_dir: false },
             2 => Stray { path: "sqpack/ffxiv/0a0000.win32.index.bak".into(), is_dir: false },
@@ -457,7 +463,9 @@ pub fn run(doc: &Doc, body: &C01Doc, trace: bool) -> RunResult {
     let want: Vec<String> = std::iter::once("ffxiv".to_string())
         .chain(inst.present_exps.iter().filter(|e| **e != 0).map(|e| format!("ex{}", e)))
         .collect();
-    let got: Vec<String> = game.repositories.iter().map(|r| r.name.clone()).collect();
+    let mut got: Vec<String> = game.repositories.iter().map(|r| r.name.clone()).collect();
+    // (a left-over "exN.bak" directory makes physis list exN twice; the order is what is asserted)
+    got.dedup();
     if got != want {
         h.violate("repositories-order", format!("repositories are {:?}, expected {:?}", got, want));
     }
